@@ -260,9 +260,12 @@ def run(ctx) -> list[Inst]:
             val = values.get(F)
             construct = f'{cname}.{F} in the copy'
             props = PROPS + (('C09',) if cname == 'AttackGraph' else ())
+            if val is None and isinstance(ctor, ast.Call) and any(k.arg is None for k in ctor.keywords):
+                insts.append(Inst(RULE, f.short, construct, 'unproven',
+                                  msg='the constructor receives its arguments through **mapping: field not traced',
+                                  file=rel, line=ctor.lineno, props=props))
+                continue
             if val is None:
-                if fi.default is not None and not is_container(t) and fi.origin == 'dataclass' and False:
-                    pass
                 insts.append(Inst(
                     RULE, f.short, construct, 'violation',
                     msg=(f'{cname}.{F} is never given a value in the copy (the copy keeps the default / '
